@@ -533,6 +533,52 @@ register(Job("c16:_add_dependency_meta[<=4]", ["C16"], US + "_add_dependency_met
 register(Job("c16:_add_dependency_meta[<=5]", ["C16"], US + "_add_dependency_meta", {"bounded_nodes": 5}, _deps_job(5), tier="thorough"))
 
 
+def _recurse_inductive_job() -> Record:
+    """UNBOUNDED: the memoised recursion of _add_dependency_meta against its contract, for every
+    well-founded DAG, every memo state satisfying the invariant and every number of inputs
+    (pyvc/setvc.py: heap model of Python sets, recursion contract, inductive loop invariant)."""
+    import time as _time
+
+    from pyvc import setvc
+    from pyvc.harness import CURRENT_JOB
+    from pyvc.interp import Repo
+
+    tag = "C16:transforms._unit_scale._add_dependency_meta.recurse"
+    rec = Record(US + "_add_dependency_meta", {"inductive": "all DAGs"})
+    rec.job_key = CURRENT_JOB[0]  # type: ignore[attr-defined]
+    t0 = _time.time()
+    try:
+        _, tree = Repo().load("unit_scaling.transforms._unit_scale")
+        vc, ex = setvc.generate(tree)
+        pre = vc.obs[0][1] if vc.obs else []
+        rec.cover = "sat" if setvc.vacuity(vc, [h for _, hs, _ in vc.obs for h in hs][:0] + list(pre)) == "sat" else "no-satisfiable-path"
+        # the hypotheses of every path (contract of the callee + invariant) must be satisfiable too
+        for name, hyps, _ in vc.obs:
+            if name.startswith("path"):
+                v = setvc.vacuity(vc, hyps)
+                if v == "unsat":
+                    rec.cover = "no-satisfiable-path"
+        res = setvc.discharge(vc)
+        rec.paths = len([1 for n_, _, _ in vc.obs if n_.endswith(":frame")])
+        for r in res:
+            rec.obligations.append({"name": f"{tag}:{r['name']}", "path": 0, "status": r["status"], "solver": r["solver"], "time_s": r["time_s"], "info": {"backend": "setvc (inductive, unbounded)"}, **({"model": {"z3": r["model"]}} if r["status"] == "violated" else {})})
+        if ex.ncalls == 0:
+            rec.obligations.append({"name": f"{tag}:recursion_present", "path": 0, "status": "undecided", "solver": "-", "time_s": 0.0, "info": {"note": "no recursive call found: contract not exercised"}})
+        rec.notes.append(f"recursive calls under contract: {ex.ncalls}; loops under invariant: {ex.nloops}")
+    except setvc.Unsupported as e:
+        rec.obligations.append({"name": f"{tag}:body_within_the_verified_subset", "path": 0, "status": "undecided", "solver": "-", "time_s": 0.0, "info": {"reason": str(e), "note": "the bounded job c16:_add_dependency_meta[<=4] still decides the function on small DAGs"}})
+        rec.cover = "sat"
+    except Exception as e:  # machinery error
+        import traceback as _tb
+
+        rec.error, rec.error_kind = f"{type(e).__name__}: {e}\n{_tb.format_exc()}", "crash"
+    rec.wall_s = round(_time.time() - t0, 3)
+    return rec
+
+
+register(Job("c16:_add_dependency_meta.recurse[inductive]", ["C16"], US + "_add_dependency_meta", {"inductive": "all DAGs"}, _recurse_inductive_job))
+
+
 def _branch_graphs() -> List[Tuple[str, List[R.Node], str, str]]:
     """(label, graph, skip, residual): residual branches of 0-3 ops, the softmax-class op at
     every position / absent / only upstream of the skip / only on a side input"""
